@@ -115,7 +115,7 @@ func (x *Exec) callCommon(fr *frame, s *State, c *ssa.CallCommon, fnv Value, arg
 		if res, ok := x.invokeModel(fr, s, c, fnv, args, pos); ok {
 			return res
 		}
-		return x.unknownCall(fr, s, key, sig, pos)
+		return x.unknownCall(fr, s, key, nil, sig, pos)
 	}
 	callee := c.StaticCallee()
 	var bindings []Value
@@ -126,7 +126,7 @@ func (x *Exec) callCommon(fr *frame, s *State, c *ssa.CallCommon, fnv Value, arg
 		bindings = fnv.Bind
 	}
 	if callee == nil {
-		return x.unknownCall(fr, s, "dynamic call", sig, pos)
+		return x.unknownCall(fr, s, "dynamic call", nil, sig, pos)
 	}
 	return x.callFunction(fr, s, callee, args, bindings, pos)
 }
@@ -182,7 +182,7 @@ func (x *Exec) callFunction(fr *frame, s *State, callee *ssa.Function, args []Va
 		// deterministic-unknown: uninterpreted function of the arguments
 		return x.uninterpretedCall(s, callee, args)
 	}
-	return x.unknownCall(fr, s, x.E.fnKey(callee), callee.Signature, pos)
+	return x.unknownCall(fr, s, x.E.fnKey(callee), callee, callee.Signature, pos)
 }
 
 func (x *Exec) uninterpretedCall(s *State, callee *ssa.Function, args []Value) []Value {
@@ -228,9 +228,15 @@ func (x *Exec) uninterpretedCall(s *State, callee *ssa.Function, args []Value) [
 }
 
 // unknownCall havocs the heap and returns unconstrained results.
-func (x *Exec) unknownCall(fr *frame, s *State, what string, sig *types.Signature, pos token.Pos) []Value {
+func (x *Exec) unknownCall(fr *frame, s *State, what string, callee *ssa.Function, sig *types.Signature, pos token.Pos) []Value {
 	x.C.Abstracted["call without contract (heap havoc): "+what]++
+	pre := map[Sort]Term{}
+	for k, h := range s.Heaps {
+		pre[k] = h
+	}
 	x.havocHeaps(s, nil, "call")
+	x.havocGhosts(s, callee)
+	x.assumePreserved(s, pre, callee, callee == nil)
 	res := sig.Results()
 	out := make([]Value, res.Len())
 	for i := 0; i < res.Len(); i++ {
@@ -260,6 +266,7 @@ func (x *Exec) applyContract(fr *frame, s *State, ct *Contract, callee *ssa.Func
 	pre := s.Clone()
 	if ct.Modifies == nil {
 		x.havocHeaps(s, nil, "call")
+		x.assumePreserved(s, pre.Heaps, callee, callee == nil)
 	} else {
 		x.havocModifies(env, s, ct.Modifies)
 	}
